@@ -101,7 +101,7 @@ Proof.
   - (* Rename *) destruct (WF_rename s p q W Hwf) as [_ Hok].
     destruct (lookup s (normalize_path p)) as [f|] eqn:Hl.
     + rewrite Hok by congruence. discriminate.
-    + unfold m_rename. rewrite Hl. reflexivity.
+    + unfold m_rename. rewrite Hl. match goal with |- context [if ?c then _ else _] => destruct c end; reflexivity.
   - (* Stat *) unfold m_stat. destruct (lookup s (normalize_path p)) as [f|]; [|reflexivity]. destruct (get_node s f); reflexivity.
   - (* Chmod *) cbn [wf_op_ord] in Hwf. apply andb_true_iff in Hwf as [Hn _].
     unfold m_chmod. destruct (lookup s (normalize_path p)) as [f|] eqn:Hl; [|reflexivity].
